@@ -279,6 +279,10 @@ func (w *vfWorld) writeConfig() (string, error) {
 		return "", err
 	}
 	fmt.Fprintf(&b, "  htpasswd_filename: %q\n", ht)
+	if c.PwBackend == "command" {
+		// the external helper program backend: a real child process per password check
+		fmt.Fprintf(&b, "  external_auth_command: %q\n", vfFixture("authhelper.sh"))
+	}
 	if len(c.PubKeys) > 0 {
 		var lines strings.Builder
 		for _, k := range c.PubKeys {
@@ -430,6 +434,7 @@ func (w *vfWorld) build() error {
 	u2fTrustedFacets = nil
 	vfResetGlobals()
 
+	w.writeHelperCtl("ok")
 	cfgFile, err := w.writeConfig()
 	if err != nil {
 		return err
@@ -464,7 +469,7 @@ func (w *vfWorld) build() error {
 	case "", "counting":
 		w.pw = &countingPw{w: w}
 		state.passwordChecker = w.pw
-	case "htpasswd", "ldap", "okta":
+	case "htpasswd", "ldap", "okta", "command":
 		// the loader already installed the real authenticator
 	}
 	if w.cfg.Email {
@@ -520,6 +525,18 @@ func (w *vfWorld) openDBs(state *RuntimeState) error {
 // postReady mirrors what main() does once the signer is ready (that code is
 // inline in main() and cannot be called): password-cache storage hookup and
 // client CA pool completion.  Listed as a stub in evidence.
+// control file of the password helper program (fixtures/authhelper.sh): its mode and the accounts it knows
+func (w *vfWorld) writeHelperCtl(mode string) {
+	var b strings.Builder
+	fmt.Fprintf(&b, "mode=%s\n", mode)
+	for _, u := range vfUsers {
+		fmt.Fprintf(&b, "user %s %s\n", u, w.dirsim.Password[u])
+	}
+	path := filepath.Join(w.dir, "authhelper.ctl")
+	os.WriteFile(path, []byte(b.String()), 0o600)
+	os.Setenv("VF_AUTHHELPER_CTL", path)
+}
+
 func (w *vfWorld) postReady() error {
 	state := w.state
 	if len(state.Config.Ldap.LDAPTargetURLs) > 0 && !state.Config.Ldap.DisablePasswordCache {
